@@ -728,6 +728,15 @@ def struct_audit_cases(rng):
         v6rule = lambda off: ['fs', 1, None, [['p', 1, 64, off, V6A[:8] + [0] * 8]]]
         for off in (1, 8, 63):
             both(W.IPV6_FS, [[0, v6rule(off)]], 'fs_v6_offset')
+        # RFC 8956 3.1: the pattern is the length - offset bits after the offset (its example: ::1234:5678:9a00:0/104
+        # offset 64 is 01 68 40 12 34 56 78 9a); offset < length unless both are 0; a component follows the prefix so
+        # that a reader that sizes the pattern differently loses step
+        EX = [0] * 8 + [0x12, 0x34, 0x56, 0x78, 0x9a, 0, 0, 0]
+        for ln, off, addr in ((104, 64, EX), (128, 64, EX[:15] + [1]), (128, 127, [0] * 15 + [1]), (128, 120, [0] * 15 + [0xa5]), (65, 64, [0] * 8 + [0x80] + [0] * 7),
+                              (72, 7, [1, 0x23] + [0] * 14), (64, 64, EX), (0, 0, [0] * 16), (0, 1, [0] * 16), (104, 0, EX)):
+            for ty in (1, 2):
+                both(W.IPV6_FS, [[0, ['fs', 1, None, [['p', ty, ln, off, addr], ['o', 3, [[0x81, 6]]]]]]], 'fs_v6_offset', 'fs_v6_offset_%d_%d' % (ln, off))
+        both(W.IPV6_FSVPN, [[0, ['fs', 1, RDS[0], [['p', 1, 104, 64, EX], ['o', 3, [[0x81, 6]]]]]]], 'fs_v6_offset')
     # RTC: the three forms, AS numbers at the edges
     for kind in (0, 1, 2):
         for asn in (0, 65535, 65536, 4294967295):
